@@ -247,7 +247,7 @@ def splitSign : Str → Bool × Str
 
 def applySign (neg : Bool) (n : Nat) : Int := if neg then -(n : Int) else (n : Int)
 
-/-- `^…$` without re.MULTILINE: `$` also matches before one final newline, and `int()` / `float()` strip it -/
+/-- REAL_VALUE is `^…$` without re.MULTILINE: `$` also matches before one final newline, and `float()` strips it -/
 def chomp (s : Str) : Str := if s.getLast? = some '\n' then s.dropLast else s
 
 /-- BINARY_VALUE, OCTAL_VALUE, DECIMAL_VALUE, HEX_VALUE in this order -/
@@ -271,8 +271,8 @@ def intLitCore (s : Str) : Option Int :=
           | [] => none
         else none
 
-/-- mirrors _integerValue_to_int -/
-def intLit (s : Str) : Option Int := intLitCore (chomp s)
+/-- mirrors _integerValue_to_int (the four patterns end in `\Z`: no trailing newline is tolerated) -/
+def intLit (s : Str) : Option Int := intLitCore s
 
 def lowerAsciiS (s : Str) : Str := s.map lowerAscii
 
